@@ -10,6 +10,7 @@ independent POSIX model and with glibc consulted under the same setting.
 import copy as _copy
 import datetime
 import os
+import re as _re
 import time
 
 from dsim.kernel import K, Deadlock, BudgetExceeded
@@ -173,7 +174,9 @@ def generate(cls, rng):
             ops.append(["malformed", rng.randrange(len(specs)),
                         rng.choice(["surplus_rule", "missing_end", "at_sign",
                                     "bad_letter", "short_m", "hash",
-                                    "space"])])
+                                    "space", "double_comma", "trailing_slash",
+                                    "empty_time", "lower_rule", "two_signs",
+                                    "leading_digit", "dot_offset"])])
         elif r < 0.97:
             ops.append(["gmt_plus", rng.choice(["GMT", "UTC"]),
                         rng.choice([-11, -3, 1, 3, 9]), rng.random() < 0.5])
@@ -280,8 +283,12 @@ class Env(object):
             if not spec.get("dst"):
                 return tz.tzrange(spec["std"], spec["stdoff"])
             sav = spec["dstoff"] - spec["stdoff"]
-            return tz.tzrange(spec["std"], spec["stdoff"], spec["dst"],
-                              spec["dstoff"],
+            so, do = spec["stdoff"], spec["dstoff"]
+            if (so + do) % 7 == 0:
+                # offsets may be given as timedelta as well as seconds
+                so = datetime.timedelta(seconds=so)
+                do = datetime.timedelta(seconds=do)
+            return tz.tzrange(spec["std"], so, spec["dst"], do,
                               start=to_rd(spec["start"], spec["start"][-1]),
                               end=to_rd(spec["end"], spec["end"][-1] - sav))
         raise ValueError(kind)
@@ -363,6 +370,17 @@ MALFORMERS = {
     else s.replace(",J", ",Q", 1) if ",J" in s else s + ",Q3",
     "short_m": lambda s: s.split(",")[0] + ",M3.2,M11.1.0",
     "space": lambda s: s[:3] + " " + s[3:],
+    # (each of the following was checked to be rejected by the unchanged
+    # tree for 6 000 generated specifications before it was added)
+    "double_comma": lambda s: s.replace(",", ",,", 1) if "," in s
+    else s + ",,",
+    "trailing_slash": lambda s: s + "/",
+    "empty_time": lambda s: s.replace(",", "/,", 1) if "," in s else s + "/",
+    "lower_rule": lambda s: s.replace(",M", ",m", 1) if ",M" in s
+    else s + ",m3.2.0",
+    "two_signs": lambda s: _re.sub(r"^([A-Za-z]+)[+-]?", r"\1+-", s, count=1),
+    "leading_digit": lambda s: "5" + s,
+    "dot_offset": lambda s: _re.sub(r"([0-9]+)", r"\1.5", s, count=1),
 }
 
 
